@@ -528,7 +528,14 @@ func (e *erasureCodingPartStore) newPartReader(ctx context.Context, tx database.
 				_ = pw.CloseWithError(fmt.Errorf("insufficient shards in stripe %d", stripeIndex))
 				return
 			}
-			if err := enc.ReconstructData(shards); err != nil {
+			// ReconstructData leaves missing parity shards empty; when shards are being
+			// healed the parity shards are needed too, or a healed parity shard would
+			// consist of zero-length frames.
+			reconstruct := enc.ReconstructData
+			if healingShardCount > 0 {
+				reconstruct = enc.Reconstruct
+			}
+			if err := reconstruct(shards); err != nil {
 				closeHealingWriters(err)
 				_ = pw.CloseWithError(err)
 				return
